@@ -59,8 +59,9 @@ type ResultSet struct {
 	Match     string   `json:"match"`
 	Cols      int      `json:"cols"`
 	Rows      [][]Cell `json:"rows"`
-	FailAfter int      `json:"fail_after"` // >=0: Next fails with an error after that many rows (rows.Err)
-	QueryErr  bool     `json:"query_err"`  // the statement itself fails
+	FailAfter int      `json:"fail_after"`       // >=0: Next fails with an error after that many rows (rows.Err)
+	QueryErr  bool     `json:"query_err"`        // the statement itself fails
+	Repeat    int      `json:"repeat,omitempty"` // serve the row list this many times over (large result sets, compactly)
 }
 
 type scriptT struct {
@@ -143,10 +144,14 @@ func (r *rowsT) Next(dest []driver.Value) error {
 	if r.rs.FailAfter >= 0 && r.i >= r.rs.FailAfter {
 		return errors.New("scripted: connection lost while reading rows")
 	}
-	if r.i >= len(r.rs.Rows) {
+	total := len(r.rs.Rows)
+	if r.rs.Repeat > 1 {
+		total *= r.rs.Repeat
+	}
+	if r.i >= total {
 		return io.EOF
 	}
-	row := r.rs.Rows[r.i]
+	row := r.rs.Rows[r.i%len(r.rs.Rows)]
 	r.i++
 	for i := range dest {
 		if i < len(row) {
